@@ -3034,6 +3034,20 @@ coap_handle_request_put_block(coap_context_t *context,
   update_data = 0;
   saved_offset = offset;
 
+  if (block_option == COAP_OPTION_BLOCK1 && !block.bert &&
+      ((length % chunk && offset + length < lg_srcv->total_len) ||
+       (lg_srcv->no_more_seen && offset + length > lg_srcv->total_len))) {
+    /*
+     * Only the end of the body can be shorter than the block size, and
+     * nothing can follow the block without More: the body would be passed
+     * on with bytes missing in it.
+     */
+    coap_add_data(response, sizeof("Inconsistent last block")-1,
+                  (const uint8_t *)"Inconsistent last block");
+    response->code = COAP_RESPONSE_CODE(408);
+    goto free_lg_srcv;
+  }
+
   while (offset < saved_offset + length) {
     if (!check_if_received_block(&lg_srcv->rec_blocks, block.num)) {
       /* Update list of blocks received */
